@@ -2,6 +2,8 @@ import FordModel.Proto
 import FordModel.External
 import FordModel.ExternalGraph
 import FordModel.ExternalAssoc
+import FordModel.ExternalChild
+import FordModel.ExternalHref
 namespace Ford
 open Proto Ext
 
@@ -348,6 +350,76 @@ def dispatchC16 : List Str → Option (List Str)
             | .error e => some (errOut e)
           | none => some ["bad-request".toList]
         | _ => some ["bad-request".toList]
+      | _ => some ["bad-request".toList]
+    else if cmd == "c16.child".toList then
+      -- c16.child <remote> <base> <module index> <attr|-> <index> =<name> <+kind|-> json
+      --   -> importerr | nav | err <class> | none | some <class key> <name> <url>
+      match args with
+      | rem :: url :: mi :: attr :: si :: nm :: kd :: r =>
+        match decJson r with
+        | some (doc, []) =>
+          match importDoc (baseOf rem url) doc with
+          | .error _ => some ["importerr".toList]
+          | .ok os =>
+            let target : Option XObj :=
+              match os[natOf mi]? with
+              | none => none
+              | some m =>
+                if attr == ['-'] then some m else
+                match m with
+                | .node _ _ _ _ _ attrs =>
+                  (match attrs.lookup attr with
+                   | some (.list xs) => xs[natOf si]?
+                   | _ => none)
+                | .text _ => none
+            match target with
+            | none => some ["nav".toList]
+            | some t =>
+              match xFindChild t (nm.drop 1) (optField kd) with
+              | .error .valueError => some ["err".toList, "ValueError".toList]
+              | .error .typeError => some ["err".toList, "TypeError".toList]
+              | .error .attrError => some ["err".toList, "AttributeError".toList]
+              | .ok none => some ["none".toList]
+              | .ok (some (.node cls n u _ _ _)) => some ["some".toList, cls, renderJ n, renderJ u]
+              | .ok (some (.text _)) => some ["some".toList, "text".toList]
+        | _ => some ["bad-request".toList]
+      | _ => some ["bad-request".toList]
+    else if cmd == "c16.pfind".toList then
+      -- c16.pfind <remote> <base> =<name> <+kind|-> <+child|-> <+child kind|-> <link 0|1> json
+      --   -> importerr | err <class> | none | some <class key> <name> <url>      (link = 1: with convert_link's fall-back)
+      match args with
+      | rem :: url :: nm :: kd :: ch :: ck :: lk :: r =>
+        match decJson r with
+        | some (doc, []) =>
+          match importDoc (baseOf rem url) doc with
+          | .error _ => some ["importerr".toList]
+          | .ok os =>
+            let res := if lk == ['1'] then xConvertLink os (nm.drop 1) (optField kd) (optField ch) (optField ck)
+                       else xProjectFind os (nm.drop 1) (optField kd) (optField ch) (optField ck)
+            match res with
+            | .error .valueError => some ["err".toList, "ValueError".toList]
+            | .error .typeError => some ["err".toList, "TypeError".toList]
+            | .error .attrError => some ["err".toList, "AttributeError".toList]
+            | .ok none => some ["none".toList]
+            | .ok (some (.node cls n u _ _ _)) => some ["some".toList, cls, renderJ n, renderJ u]
+            | .ok (some (.text _)) => some ["some".toList, "text".toList]
+        | _ => some ["bad-request".toList]
+      | _ => some ["bad-request".toList]
+    else if cmd == "c16.href".toList then
+      -- c16.href <output dir> <working dir> <U<context url> | P<path> | N> =<str(get_url()) of the item>  ->  ok <href>
+      match args with
+      | [base, cwd, pg, item] =>
+        let page : PageOf :=
+          match pg with
+          | 'U' :: u => .context (pathSegs u)
+          | 'P' :: q => .path (pathSegs q)
+          | _ => .unknown
+        some ["ok".toList, hrefOf (pathSegs base) (pathSegs cwd) page (item.drop 1)]
+      | _ => some ["bad-request".toList]
+    else if cmd == "c16.rewrite".toList then
+      -- c16.rewrite json  ->  the document as a successful conversion leaves it
+      match decJson args with
+      | some (doc, []) => some ("ok".toList :: encJson (rewriteDoc doc))
       | _ => some ["bad-request".toList]
     else if cmd == "c16.use".toList then
       -- c16.use <name> <nLocal> (name ext)* <nExt> (name ext)*
